@@ -1002,6 +1002,8 @@ BUILTINS = {n: PyBuiltin(n, f) for n, f in {
 
 
 def _mkset(I, x, frozen=True):
+    if isinstance(x, Model) and hasattr(x, "as_set"):
+        return x.as_set(I, frozen)
     items = I.iterate(x)
     res = []
     for v in items:
